@@ -6,7 +6,9 @@ V = Path('/verif')
 counts = {}
 for f in sorted((V / 'coq/props').glob('C*.v')):
     t = f.read_text()
-    counts[f.stem] = (len(re.findall(r'^Theorem ', t, re.M)), len(re.findall(r'_refuted|_pinned', ' '.join(re.findall(r'^Theorem (\w+)', t, re.M)))))
+    names = re.findall(r'^Theorem (\w+)', t, re.M)
+    # one count per theorem NAME (a name ending in _refuted_pinned is one witness, not two)
+    counts[f.stem] = (len(names), sum(1 for n in names if re.search(r'_refuted|_pinned', n)))
 line = ", ".join(f"{k} ({n}" + (f", {r} of them refuted/pinned witnesses" if r else "") + ")" for k, (n, r) in counts.items())
 total = sum(n for n, _ in counts.values())
 text = f"<!-- counts:begin -->\n{line}.  Total: {total} property theorems in {len(counts)} props files.\n<!-- counts:end -->"
